@@ -2,6 +2,20 @@ package main
 
 func init() {
 	property(&Property{
+		ID:    "C09",
+		Rules: []string{"PANIC-REACH-SERVE", "COMMAOK-SERVE", "ASSERT-CHECKED", "TABLE-GUARD", "SIGNCONV", "OFFSET-BASE", "NIL-MAP-WRITE"},
+		Decides: "Decides crash constructs.",
+		NotDecided: "general.",
+		Assumptions: commonAssumptions,
+	})
+	property(&Property{
+		ID:    "C16",
+		Rules: []string{"PANIC-REACH-REG", "COMMAOK-REG", "TOKEN-KINDS", "COW-7", "COW-3"},
+		Decides: "Decides registration errors.",
+		NotDecided: "grammar.",
+		Assumptions: commonAssumptions,
+	})
+	property(&Property{
 		ID:    "C12",
 		Rules: []string{"COW-1", "COW-2", "COW-3", "COW-4", "COW-5", "COW-6", "COW-7", "OPTS-RO", "NO-UNSAFE"},
 		Decides: "Decides the copy-on-write discipline.",
